@@ -15,10 +15,11 @@ producer; streaming producer paused when the true backlog exceeds bufferSize,
 resumed when (and only when) it drained; a pull producer asked when (and only
 when) nothing is buffered.  Refused calls (a second registerProducer while a
 producer is registered) are part of the histories: they must leave the
-registered producer's service untouched.
+registered producer's service untouched.  So do write calls that fail part-way (a non-bytes
+element after good ones, an iterable whose source raises): whether the good chunks before
+the failure count as written is left open until the OS is offered the next bytes, but either
+way the descriptor must be consistent with it.
 """
-import os
-
 from twisted.internet import abstract, error, main
 from twisted.internet.posixbase import _DisconnectSelectableMixin
 
@@ -39,12 +40,15 @@ COMPONENTS = {
     "stub": ["writeSomeData (the OS: tape-chosen accepted count or ConnectionLost)",
              "IReactorFDSet (records add/removeWriter; scheduler calls doWrite only while registered)",
              "scripted push and pull producers (and second producers whose registration is refused)",
+             "the application's chunk sources (sequences with a non-bytes element, generators that raise after some chunks)",
              "the application's list objects (kept, edited, passed again, passed to both descriptors)"],
 }
 RULE = ("run = 5..60 tape-chosen operations (write 0 B..1 MiB, writeSequence of list/tuple/one-shot iterator, doWrite, register/unregister "
         "streaming or pull producer, producer-driven writes, loseConnection, loseWriteConnection; in 1 of 2 descriptors also registerProducer "
         "of a second producer - of the same or of the other kind - while one is still registered, which is refused and after which the "
-        "application carries on with the producer that is registered) with per-descriptor bufferSize / SEND_LIMIT / "
+        "application carries on with the producer that is registered; in 1 of 2 descriptors also write calls that are refused part-way - "
+        "writeSequence of a list/tuple/iterator with a non-bytes element after 0..3 good chunks, writeSequence of a generator whose source raises "
+        "after 0..3 chunks, write of a non-bytes object - after which the application carries on) with per-descriptor bufferSize / SEND_LIMIT / "
         "acceptance policy / error rate, then a drain; in 3 of 4 runs the application treats the lists it passed to writeSequence as its own "
         "(edits them right after the call, keeps one and passes it again as is / refilled / extended); in 1 of 5 runs the operations are spread "
         "over two live descriptors which are also handed the same list objects (broadcast right after the first call, or later); "
@@ -60,6 +64,15 @@ ASSUMPTIONS = [
     "the two live descriptors of a run are independent connections: bytes written to one never count as written to the other",
     "registerProducer() while another producer is registered raises RuntimeError (IConsumer.registerProducer) and registers nothing: "
     "the model keeps serving the producer that was registered, with its own kind (streaming or not); calls made to the refused producer get no verdict",
+    "a write call that raises part-way (TypeError for a non-bytes element, or the exception of the iterable's own source) has written "
+    "either nothing or exactly the good chunks that preceded the failure (writeSequence is documented as 'roughly equivalent to "
+    "for chunk in iovec: write(chunk)'); never the chunks after the failing point.  Which of the two is decided by what the OS is offered "
+    "next.  If the chunks were accepted they are written bytes like any others: from the moment the call returned the descriptor had to be "
+    "registered for writing until they were handed over, and a streaming producer had to be paused if they made the backlog exceed bufferSize.  "
+    "While that is undecided and nothing observed contradicts the 'accepted' reading, the clauses with the premise 'nothing is buffered' "
+    "(resume-when-drained, pull-asked-when-drained) give no verdict; refused calls are not issued between loseWriteConnection() and the half-close",
+    "'resumed once the buffer drains' holds for every doWrite that empties the buffer, also after loseConnection(): the connection is not "
+    "closed over the head of a paused streaming producer (loseConnection: 'the connection won't be closed until the producer is finished')",
     "honouring a non-streaming producer includes asking it (IPullProducer.resumeProducing: 'produce data for the consumer a single time'; "
     "IConsumer.registerProducer: 'resumeProducing will be called each time data is required'): at registration and whenever doWrite "
     "leaves nothing buffered; our pull producer writes at least one byte per call or unregisters, so a connected descriptor with a pull "
@@ -68,9 +81,14 @@ ASSUMPTIONS = [
 LEVEL_NOTE = ("second configuration of the design (same generator against tcp.Connection on a kernel model) is not part of this module; "
               "the descriptor here is the abstract base class every stream transport inherits its buffering from")
 
-# One-shot iterators as writeSequence arguments (ITransport.writeSequence takes an Iterable[bytes]).
-# VERIF_C14_ITER=0 takes them out of the generator (dev-time: lets mutant runs see past the finding below).
-ITERATOR_IOVEC = os.environ.get("VERIF_C14_ITER", "1") != "0"
+# One-shot iterators as writeSequence arguments (ITransport.writeSequence takes an Iterable[bytes]); False takes them out
+# of the generator (the genuine defect they exposed - data of a generator silently dropped - is REPAIRED in /repo 87f6a99; False is
+# only for dev-time comparison).
+ITERATOR_IOVEC = True
+# share of the descriptors on which the application also makes calls that are REFUSED part-way: writeSequence() of a
+# sequence holding a non-bytes element after good ones (TypeError), writeSequence() of an iterable whose source raises
+# after some chunks, write() of a non-bytes object; the application catches the exception and carries on
+REFUSED_WRITES_P = 0.5
 # share of the runs with a second live descriptor (own knobs / OS / model) whose operations interleave with the first one's
 TWO_DESCRIPTORS_P = 0.2
 
@@ -151,6 +169,10 @@ class Producer:
         self.h.ev("producer", self.pid, "stop")
 
 
+class SourceFailed(Exception):
+    """raised by the application's own chunk source while writeSequence() is traversing it"""
+
+
 class Harness:
     """Scenario driver + reference model."""
 
@@ -169,6 +191,7 @@ class Harness:
         self.expected = bytearray()      # bytes that MUST reach the OS, in order
         self.optional = bytearray()      # written in the no-verdict window; may follow, in order
         self.iter_spans = []             # (start, end) spans of `expected` that came from a one-shot iterator
+        self.maybes = []                 # good data that preceded the failure of a refused call, fate still open (see do_write_refused)
         self.acc = 0                     # bytes accepted by the OS so far
         self.lose_mark = None            # len(expected) when loseConnection was called
         self.producer = None
@@ -276,6 +299,116 @@ class Harness:
             with sim.guard("write-raised", "write"):
                 self.fd.write(data)
         self.after_write(who, len(data))
+
+    # ------------------------------------------------------------ calls that are refused part-way
+    # write(<not bytes>) / writeSequence(<sequence with a non-bytes element>) raise TypeError; writeSequence(<iterable whose
+    # source raises>) raises what the source raised.  The application catches it and carries on.  The statement does not
+    # say what became of the good chunks that PRECEDED the failure: nothing of the call was written (all-or-nothing), or
+    # those chunks were (the documented `for chunk in iovec: write(chunk)` reading).  The model leaves that open until the
+    # OS is offered the next bytes; the chunks after the failing point are never written under either reading.  If the
+    # chunks turn out to have been accepted they are written bytes like any others: the descriptor had to be registered
+    # for writing when the call returned, and a streaming producer had to be paused if they filled the buffer.
+    def do_write_refused(self, who):
+        sim = self.sim
+        it = 1 if (ITERATOR_IOVEC and self.iter_ok) else 0
+        kind = sim.draw_weighted([("list", 3), ("tuple", 2), ("source_raises", 3 * it), ("iter", it), ("write", 1)], "refused_kind")
+        good, after = [], []
+        if kind != "write":
+            k = sim.draw_int(0, 3, "good_before")
+            if k:
+                n = self.size()
+                cuts = sorted(sim.draw_int(0, n, "cut") for _ in range(k - 1))
+                data = self.take(n)
+                good = [data[a:b] for a, b in zip([0] + cuts, cuts + [len(data)])]
+            after = [self.take(sim.draw_int(0, 8, "n")) for _ in range(sim.draw_int(0, 2, "good_after"))]
+        bad = sim.draw_choice(["text", 7, None], "bad_element")
+        prefix = b"".join(good)
+        self.ev(who, "refused", kind, len(good), len(prefix), len(after))
+        sim.fault("write_refused")
+        if kind == "source_raises":
+            sim.probe("refused_source_raised_midway")
+
+            def source():
+                yield from good
+                raise SourceFailed()
+            arg = source()
+        elif kind == "write":
+            arg = bad
+        else:
+            seq = good + [bad] + after
+            arg = seq if kind == "list" else tuple(seq) if kind == "tuple" else (c for c in seq)
+        if prefix:
+            sim.probe("refused_after_good_chunks")
+            if not self.reactor.writing and self.connected and not self.halfclosed:
+                sim.probe("refused_after_good_chunks_on_idle_descriptor")
+        with sim.guard("write-raised", "refused-call"):
+            try:
+                if kind == "write":
+                    self.fd.write(arg)
+                else:
+                    self.fd.writeSequence(arg)
+            except (TypeError, SourceFailed):
+                pass
+        if prefix and self.connected and not self.halfclosed:
+            p = self.producer
+            self.maybes.append({
+                "pos": len(self.expected), "data": prefix, "who": who, "before_lose": not self.lose_called,
+                "idle": not self.reactor.writing,
+                "pause_missing": (p is not None and p.streaming and not p.paused
+                                  and self.backlog + len(prefix) > self.fd.bufferSize),
+                "backlog": self.backlog, "bufferSize": self.fd.bufferSize})
+
+    @property
+    def undecided(self):
+        """some refused call's good chunks may be sitting in the buffer without the model counting them, and nothing
+        observed so far is wrong under that reading: clauses whose premise is "nothing is buffered" give no verdict"""
+        return any(not (mb["idle"] or mb["pause_missing"]) for mb in self.maybes)
+
+    def resolve_maybes(self, data, want):
+        """the OS is offered `data` where the model (refused calls wrote nothing) predicts `want`: try the other reading
+        for the still open refused calls, earliest first; returns the prediction that explains the most"""
+        def first_diff(d, w):
+            m = min(len(d), len(w))
+            i = 0
+            while i < m and d[i] == w[i]:
+                i += 1
+            return None if (i == len(d) and len(d) <= len(w)) else i
+        i = first_diff(data, want)
+        progress = True
+        while i is not None and progress:
+            progress = False
+            for idx, mb in enumerate(self.maybes):
+                if not (self.acc <= mb["pos"] <= self.acc + i):
+                    continue
+                pos, chunk = mb["pos"], mb["data"]
+                trial = self.expected[:pos] + chunk + self.expected[pos:] + self.optional
+                w2 = bytes(trial[self.acc:self.acc + len(data)])
+                j = first_diff(data, w2)
+                if j is None or j > i:
+                    self.commit_maybe(idx)
+                    want, i, progress = w2, j, True
+                    break
+        return want
+
+    def commit_maybe(self, idx):
+        """the good chunks of a refused call are being handed to the OS: the call had accepted them"""
+        mb = self.maybes.pop(idx)
+        pos, chunk = mb["pos"], mb["data"]
+        self.expected[pos:pos] = chunk
+        for later in self.maybes[idx:]:
+            later["pos"] += len(chunk)
+        self.iter_spans = [(a + len(chunk), b + len(chunk)) if a >= pos else (a, b) for a, b in self.iter_spans]
+        if mb["before_lose"] and self.lose_mark is not None:
+            self.lose_mark += len(chunk)
+        self.ev("model", "refused-call-had-accepted", len(chunk))
+        if mb["idle"]:
+            self.sim.fail("registered-while-pending", "accepted-by-refused-call",
+                          "%d bytes that preceded the failure of a refused write call were accepted (they are being handed to the OS "
+                          "now) but in between the descriptor was connected and not registered for writing" % len(chunk))
+        if mb["pause_missing"]:
+            self.sim.fail("pause-when-full", "accepted-by-refused-call",
+                          "%d bytes that preceded the failure of a refused write call were accepted on top of a backlog of %d "
+                          "(bufferSize %d) but the streaming producer was not paused" % (len(chunk), mb["backlog"], mb["bufferSize"]))
 
     # ------------------------------------------------------------ writeSequence(list): the list stays the caller's
     # The application owns the list object it passes: it may keep it, edit it, refill it and pass it again, to this
@@ -389,8 +522,23 @@ class Harness:
             want = bytes(self.expected[self.acc:self.acc + n])
         else:
             want = bytes((self.expected + self.optional)[self.acc:self.acc + n])
+        if data != want and self.maybes:
+            want = self.resolve_maybes(data, want)
+            total_len = len(self.expected) + len(self.optional)
         if data != want:
             self.classify_mismatch(data, want, total_len)
+        if self.maybes:
+            # the offer shows what sits in the buffer: where it runs past the place of a refused call's good chunks and
+            # they are not there, that call had written nothing
+            keep = []
+            for mb in self.maybes:
+                off = mb["pos"] - self.acc
+                if 0 <= off < n:
+                    alt = (mb["data"] + bytes(self.expected[mb["pos"]:mb["pos"] + n - off]))[:n - off]
+                    if data[off:] != alt:
+                        continue
+                keep.append(mb)
+            self.maybes = keep
         # an iterator span whose first byte was just offered correctly is confirmed
         self.iter_spans = [(a, b) for (a, b) in self.iter_spans if not (a < self.acc + n)]
         if not n:
@@ -424,6 +572,9 @@ class Harness:
                 sim.fault("zero_write")
         self.ev("os", "offer", n, "accept", k)
         self.acc += k
+        if self.maybes:
+            # bytes past the point where a refused call's chunks would sit were handed over: that call had written nothing
+            self.maybes = [mb for mb in self.maybes if mb["pos"] >= self.acc]
         return k
 
     def classify_mismatch(self, data, want, total_len):
@@ -503,6 +654,10 @@ class Harness:
                       "closed with %d bytes (written after loseConnection, while still connected) not handed over" % (len(self.expected) - self.acc))
             if p is not None and not p.streaming and not self.halfclosed:
                 sim.fail("closed-under-pull-producer", "close", "connection closed while a non-streaming producer was registered")
+            if p is not None and p.streaming and p.paused and not self.lw_called and self.backlog == 0:
+                sim.fail("resume-when-drained", "streaming-closing",
+                         "buffer fully drained after loseConnection but the paused streaming producer was not resumed: "
+                         "the connection was closed (and the producer stopped) instead (pauses=%d resumes=%d)" % (p.pauses, p.resumes))
         else:
             sim.probe("error_close")
         if p is not None:
@@ -648,14 +803,23 @@ class Harness:
             self.reactor._disconnectSelectable(self.fd, why, False)
         elif self.connected:
             p = self.producer
-            if p is not None and p.streaming and p.paused and not self.lw_called and self.backlog == 0:
+            if self.undecided:
+                sim.probe("drained_clauses_suspended_refused_call_undecided")
+            elif p is not None and p.streaming and p.paused and not self.lw_called and self.backlog == 0:
                 sim.fail("resume-when-drained", "streaming", "buffer fully drained by doWrite but the paused streaming producer was not resumed")
             if (p is not None and p is p0 and not p.streaming and not self.lw_called and self.backlog == 0
-                    and p.resumes == resumes0):
+                    and p.resumes == resumes0 and not self.undecided):
                 sim.fail("pull-asked-when-drained", "pull", "buffer fully drained by doWrite but the registered non-streaming producer was not asked for more data")
 
     def invariants(self):
         sim = self.sim
+        if not self.connected:
+            self.maybes = []
+        elif not self.reactor.writing:
+            # idle: had a refused call accepted its good chunks (not handed over yet) this would be wrong - whichever way it
+            # turns out for those calls, the clauses below may rely on "refused calls wrote nothing"
+            for mb in self.maybes:
+                mb["idle"] = True
         if self.connected and self.acc < len(self.expected):
             self.missing("registered-while-pending", self.reactor.writing, "idle-with-backlog",
                       "%d bytes written while connected are not handed over and the descriptor is not registered for writing" % (len(self.expected) - self.acc))
@@ -693,6 +857,7 @@ def configure(sim, h, primary):
     h.push_writes_on_resume = sim.draw_bool(0.5, "push_writes_on_resume")
     h.lw_ok = sim.draw_bool(0.35, "lw_ok")
     h.dup_register_ok = sim.draw_bool(0.5, "dup_register_ok")
+    h.refused_ok = sim.draw_bool(REFUSED_WRITES_P, "refused_writes_ok")
     h.accept_weights = {
         "all": [("all", 1), ("err", 0)],
         "generous": [("all", 8), ("some", 3), ("zero", 1), ("one", 1), ("limit", 1), ("err", err_w)],
@@ -704,7 +869,7 @@ def configure(sim, h, primary):
     fd.bufferSize = buffer_size
     fd.SEND_LIMIT = send_limit
     return {"bufferSize": buffer_size, "SEND_LIMIT": send_limit, "accept": accept_mode, "err_weight": err_w,
-            "os_limit": h.os_limit, "iter_ok": h.iter_ok, "lw_ok": h.lw_ok, "dup_register_ok": h.dup_register_ok}
+            "os_limit": h.os_limit, "iter_ok": h.iter_ok, "lw_ok": h.lw_ok, "dup_register_ok": h.dup_register_ok, "refused_writes_ok": h.refused_ok}
 
 
 def one_op(sim, h):
@@ -718,6 +883,8 @@ def one_op(sim, h):
         ("produce", 5 if (p is not None and p.streaming and not p.paused and h.connected) else 0),
         ("lose", 1 if not h.lose_called else 0),
         ("loseWrite", 1 if (h.lw_ok and not h.lw_called and h.connected) else 0),
+        # refused write calls (no verdict window of a pending half-close left out)
+        ("writeRefused", 1 if (h.refused_ok and not (h.lw_called and not h.halfclosed)) else 0),
     ]
     op = sim.draw_weighted(ops, "op")
     if op == "write":
@@ -736,6 +903,9 @@ def one_op(sim, h):
         h.do_lose()
     elif op == "loseWrite":
         h.do_lose_write()
+    elif op == "writeRefused":
+        h.do_write_refused("push%d" % p.pid if (p is not None and p.streaming and not p.paused and h.connected
+                                                 and sim.draw_bool(0.5, "by_producer")) else "app")
     h.invariants()
     if not h.connected:
         h.after_lost += 1
@@ -800,8 +970,7 @@ def run(sim):
     sim.nontrivial = any(x.short_writes and x.special for x in hs)
 
 
-# Sensitivity (tools/mutate.py C14 --sub src/twisted/internet/abstract.py ..., run with VERIF_C14_ITER=0 so the
-# genuine writeSequence finding does not answer for the mutant):
+# Sensitivity (tools/mutate.py C14 --sub src/twisted/internet/abstract.py ...):
 MUTANTS = [
     "doWrite: drop `self.offset = 0` after _concatenate -> CAUGHT (offered-in-order / stuck-writing)",
     "doWrite: drop `self._tempDataLen = 0` after _concatenate -> CAUGHT (resume-when-drained / stuck-writing)",
@@ -826,5 +995,12 @@ MUTANTS = [
     "(pause-when-full / closed-under-pull-producer / pull-asked-when-drained; needs the refused-registration family)",
     "registerProducer: no resumeProducing() for a non-streaming producer at registration -> CAUGHT (pull-producer-starved)",
     "registerProducer: second registration not refused (`if self.producer is not None` -> `if 0`) -> CAUGHT (second-producer-refused)",
+    "doWrite: a paused streaming producer is resumed only `and not self.disconnecting` (drained buffer on a closing connection: closed and "
+    "stopped instead of resumed) -> CAUGHT (resume-when-drained:streaming-closing; needs the clause evaluated on the doWrite that closes)",
+    "writeSequence: one pass that validates and queues chunk by chunk, startWriting/_maybePauseProducer only when the pass completes (a call "
+    "refused part-way leaves its first chunks queued on an idle descriptor) -> CAUGHT (registered-while-pending:accepted-by-refused-call / "
+    "pause-when-full:accepted-by-refused-call; needs the refused-write family)",
+    "writeSequence: `for chunk in iovec: self.write(chunk)` (the documented equivalent; a refused call has written its first chunks) -> survives "
+    "(within the statement: the model accepts either reading)",
     "doWrite: `elif self.disconnecting and not self._tempDataLen` -> survives (equivalent: _tempDataLen is 0 in that branch)",
 ]
